@@ -109,6 +109,8 @@ pub fn user_string(kind: StrKind) -> BoxedStrategy<String> {
             2 => "[a-z][a-z0-9._]{0,6}",
             // words taken from the sources under test (a name that is special to the code must still be plain data)
             1 => prop::sample::select(crate::dict::words()),
+            // whole tokens of the sources under test: emitted call texts, templates, sentinels
+            1 => prop::sample::select(crate::dict::tokens()),
         ]
         .boxed(),
     }
@@ -455,4 +457,48 @@ pub fn text_action() -> BoxedStrategy<Act> {
 
 pub fn text_leaf() -> BoxedStrategy<E> {
     prop_oneof![3 => text_test().prop_map(E::T), 1 => text_action().prop_map(E::A)].boxed()
+}
+
+/// Make the strings of different leaves of one tree *related*: one string slot of the tree is
+/// rewritten as a function of an earlier one (the same string, its suffix after a '.', a prefix,
+/// another letter case, its escaped form, the same with backslashes removed, a wildcard added).
+/// Registries, caches and "did I see this before" shortcuts are keyed on such strings; random
+/// strings drawn independently are practically never related. `backslash`: derived forms may
+/// introduce a backslash (not for the checks that exclude backslashes from name patterns).
+pub fn relate_strings(t: &E, choice: u64, backslash: bool) -> E {
+    let n = t.user_strings().len();
+    if n < 2 {
+        return t.clone();
+    }
+    let j = 1 + (choice % (n as u64 - 1)) as usize;
+    let i = ((choice / 7) % j as u64) as usize;
+    let how = (choice / 97) % 12;
+    let src = t.user_strings()[i].clone();
+    let derived = match how {
+        0 | 1 | 2 => src.clone(),
+        3 => src.rsplit('.').next().unwrap_or(&src).to_string(),
+        4 => src.chars().take((src.chars().count() + 1) / 2).collect(),
+        5 => src.to_uppercase(),
+        6 => src.to_lowercase(),
+        7 if backslash => src.replace('\\', "\\\\").replace('"', "\\\""),
+        8 => src.replace('\\', ""),
+        9 => format!("{src}*"),
+        10 => format!("*{src}"),
+        _ => format!("x.{src}"),
+    };
+    let derived = if backslash { derived } else { derived.replace('\\', "") };
+    if derived.is_empty() || derived.contains('\u{1e}') {
+        return t.clone();
+    }
+    let mut k = 0usize;
+    t.map_strings(&mut |x: &str| {
+        let out = if k == j { derived.clone() } else { x.to_string() };
+        k += 1;
+        out
+    })
+}
+
+/// `strategy`, with the strings of a fifth of its trees related by [`relate_strings`]
+pub fn related(strategy: BoxedStrategy<E>, backslash: bool) -> BoxedStrategy<E> {
+    (strategy, any::<u64>()).prop_map(move |(t, c)| if c % 5 == 0 { relate_strings(&t, c / 5, backslash) } else { t }).boxed()
 }
